@@ -369,14 +369,23 @@ static void emit_literal(WorkList *list, const char *str) {
 
 static void emit_formatted(WorkList *list, const char *fmt, ...) {
     char buffer[2048];
-    va_list args;
+    va_list args, args_again;
     va_start(args, fmt);
-    vsnprintf(buffer, sizeof(buffer), fmt, args);
+    va_copy(args_again, args);
+    int needed = vsnprintf(buffer, sizeof(buffer), fmt, args);
     va_end(args);
     
     WorkItem item;
     item.type = WORK_FORMATTED;
-    item.data.formatted = strdup(buffer);
+    if (needed >= (int)sizeof(buffer)) {
+        /* Longer than the stack buffer (e.g. a long string literal): format again
+         * into a block of the right size instead of emitting a truncated text */
+        item.data.formatted = malloc((size_t)needed + 1);
+        if (item.data.formatted) vsnprintf(item.data.formatted, (size_t)needed + 1, fmt, args_again);
+    } else {
+        item.data.formatted = strdup(buffer);
+    }
+    va_end(args_again);
     if (!item.data.formatted) {
         fprintf(stderr, "Error: Out of memory duplicating formatted string\n");
         exit(1);
